@@ -408,5 +408,10 @@ def ecdsa_rules(ctx):
             import contextlib
             if impl.methods.get("_get_sign_method") is None:
                 raise AnalysisError(f"{ctx.fq(sg)}: neither evaluable as a decision table nor dispatched by _get_sign_method")
-            with (R.lenient("decided on the decision table of sign() (C04-D3b)") if tbl is not None else contextlib.nullcontext()):
-                _dispatch_helper_rules(ctx, ev, impl, routines_)
+            try:
+                with (R.lenient("decided on the decision table of sign() (C04-D3b)") if tbl is not None else contextlib.nullcontext()):
+                    _dispatch_helper_rules(ctx, ev, impl, routines_)
+            except AnalysisError as e_:
+                if tbl is None:
+                    raise
+                R.info(f"proof form of the dispatch not applicable ({e_}); decided on the decision table of sign() (C04-D3b)")
